@@ -241,6 +241,7 @@ def run(ctx):  # noqa: C901, PLR0912
                              any(isinstance(x, ast.Name) and x.id in wparams for x in (a0.left, a0.right)) and
                              any(isinstance(x, ast.Constant) for x in (a0.left, a0.right)))
     trunc = [unparse(c) for c in calls_in(wr.node) if call_name(c) in ('int', 'divmod', 'floor', 'trunc', 'modf') and c.args and
+             not (isinstance(c.args[0], ast.Call) and call_name(c.args[0]) == 'round') and
              any(p_ in dw.sources(c.args[0]) | {unparse(c.args[0])} or f'param:{p_}' in dw.sources(c.args[0]) for p_ in wparams)]
     ok = len(whole) == 1 and whole[0] and not trunc
     ctx.ob('C18.R2', 'timestamp writer rounds the whole value once', ok,
